@@ -1,28 +1,42 @@
-// Kani module `ods` (appended to src/ods.rs): bounded stand-in for C04 on the real `get_range::<usize>`.
+// Kani module `ods` (appended to src/ods.rs): bounded stand-in for C04 on the real, generic `get_range::<T>`.
 //
 // ORACLE (written from the property, not from the code): the logical grid is the list of physical rows, each
 // taken `rows_repeats[i]` times; a position holds the physical row's cell if the row is long enough, the default
-// value (0) otherwise.  The result must be the empty range iff no logical cell is non-default; otherwise
+// value otherwise.  The result must be the empty range iff no logical cell is non-default; otherwise
 // start/end are the tight bounding box of the non-default logical cells, `inner.len() == height * width` and
 // `get_value(p)` is the logical grid's value for every p of the box.
 //
-// Shapes (physical row lengths) and repeat vectors are CONCRETE per harness, cell values are symbolic in {0,1}
-// (only "default / not default" matters to get_range; the value itself is only copied).
+// Measured: with the emptiness of cells symbolic, `col_min/col_max/row_min` become symbolic slice bounds and
+// CBMC's symbolic execution of `extend_from_slice` does not finish (shape [2,2,2], repeats [1,1,1]: > 330 s).
+// Therefore per harness the shape (physical row lengths) and the repeat vector are CONCRETE, the harness walks
+// through ALL emptiness masks of that shape (which cells are default) with concrete control flow, and only the
+// payload of the non-default cells is symbolic (cell type `K`: `nz` concrete, `v` symbolic).
+
+#[derive(Clone, Copy, Default, PartialEq, Debug)]
+struct K {
+    nz: bool,
+    v: u8,
+}
+impl crate::CellType for K {}
 
 const MAXW: usize = 3; // widest physical row of any shape below
 const MAXH: usize = 6; // 3 physical rows, repeats <= 2
+const MAXC: usize = 8; // cells per shape
 
-/// symbolic cells for a concrete shape; returns (cells, cols)
-fn any_cells<const N: usize>(lens: [usize; N]) -> (Vec<usize>, [usize; 4]) {
-    let mut cells: Vec<usize> = Vec::new();
+/// cells of a concrete shape under a concrete emptiness mask (bit k set: cell k is non-default, payload pay[k])
+fn mk_cells<const N: usize>(lens: [usize; N], mask: u32, pay: &[u8; MAXC]) -> (Vec<K>, [usize; 4]) {
+    let mut cells: Vec<K> = Vec::new();
     let mut cols = [0usize; 4];
     let mut i = 0;
     while i < N {
         let mut j = 0;
         while j < lens[i] {
-            let v: usize = kani::any();
-            kani::assume(v <= 1);
-            cells.push(v);
+            let k = cells.len();
+            if (mask >> k) & 1 == 1 {
+                cells.push(K { nz: true, v: pay[k] });
+            } else {
+                cells.push(K::default());
+            }
             j += 1;
         }
         cols[i + 1] = cells.len();
@@ -33,8 +47,8 @@ fn any_cells<const N: usize>(lens: [usize; N]) -> (Vec<usize>, [usize; 4]) {
 
 /// the logical grid: rows expanded by their repeat counts, padded with the default value to MAXW columns;
 /// returns (grid, logical height)
-fn expand<const N: usize>(cells: &[usize], cols: &[usize], reps: [usize; N]) -> ([[usize; MAXW]; MAXH], usize) {
-    let mut g = [[0usize; MAXW]; MAXH];
+fn expand<const N: usize>(cells: &[K], cols: &[usize], reps: [usize; N]) -> ([[K; MAXW]; MAXH], usize) {
+    let mut g = [[K::default(); MAXW]; MAXH];
     let mut h = 0;
     let mut i = 0;
     while i < N {
@@ -54,14 +68,14 @@ fn expand<const N: usize>(cells: &[usize], cols: &[usize], reps: [usize; N]) -> 
 }
 
 /// tight bounding box (r0, r1, c0, c1) of the non-default logical cells, None if there is none
-fn bbox(g: &[[usize; MAXW]; MAXH], h: usize) -> Option<(usize, usize, usize, usize)> {
+fn bbox(g: &[[K; MAXW]; MAXH], h: usize) -> Option<(usize, usize, usize, usize)> {
     let mut any = false;
     let (mut r0, mut r1, mut c0, mut c1) = (usize::MAX, 0usize, usize::MAX, 0usize);
     let mut r = 0;
     while r < h {
         let mut c = 0;
         while c < MAXW {
-            if g[r][c] != 0 {
+            if g[r][c].nz {
                 any = true;
                 if r < r0 { r0 = r; }
                 if r > r1 { r1 = r; }
@@ -75,26 +89,32 @@ fn bbox(g: &[[usize; MAXW]; MAXH], h: usize) -> Option<(usize, usize, usize, usi
     if any { Some((r0, r1, c0, c1)) } else { None }
 }
 
-/// true iff the input is in the region hit by the known defect (findings/ods.json #1): the data does not start in
-/// column 0 and a blank physical row lies between two non-blank physical rows
-fn in_known_defect_region<const N: usize>(cells: &[usize], cols: &[usize], c0: usize) -> bool {
+fn row_blank(cells: &[K], cols: &[usize], i: usize) -> bool {
+    let mut c = cols[i];
+    while c < cols[i + 1] {
+        if cells[c].nz { return false; }
+        c += 1;
+    }
+    true
+}
+
+/// true iff the input is in the region hit by the known defect (findings/ods.json, interior blank row width): the
+/// data does not start in column 0 and a blank physical row lies between two non-blank physical rows
+fn in_known_defect_region<const N: usize>(cells: &[K], cols: &[usize], c0: usize) -> bool {
     let mut first = N;
     let mut last = 0;
     let mut i = 0;
     while i < N {
-        let mut ne = false;
-        let mut c = cols[i];
-        while c < cols[i + 1] { if cells[c] != 0 { ne = true; } c += 1; }
-        if ne { if first == N { first = i; } last = i; }
+        if !row_blank(cells, cols, i) {
+            if first == N { first = i; }
+            last = i;
+        }
         i += 1;
     }
     let mut interior_blank = false;
     let mut i = first;
     while i < last {
-        let mut ne = false;
-        let mut c = cols[i];
-        while c < cols[i + 1] { if cells[c] != 0 { ne = true; } c += 1; }
-        if !ne { interior_blank = true; }
+        if row_blank(cells, cols, i) { interior_blank = true; }
         i += 1;
     }
     c0 > 0 && interior_blank
@@ -103,68 +123,64 @@ fn in_known_defect_region<const N: usize>(cells: &[usize], cols: &[usize], c0: u
 #[derive(Clone, Copy, PartialEq)]
 enum Fact { Bounds, Len, Placement }
 
-/// `exclude_known`: restrict to inputs outside the known-defect region (these harnesses must pass; the unrestricted
+/// `exclude_known`: skip the masks inside the known-defect region (these harnesses must pass; the unrestricted
 /// ones carry the property as stated and are registered as known findings where the defect makes them fail)
 fn check<const N: usize>(lens: [usize; N], reps: [usize; N], fact: Fact, exclude_known: bool) {
-    let (cells, cols4) = any_cells(lens);
-    let cols = &cols4[..N + 1];
-    let (g, h) = expand(&cells, cols, reps);
-    let bb = bbox(&g, h);
-    if exclude_known {
-        if let Some((_, _, c0, _)) = bb {
-            kani::assume(!in_known_defect_region::<N>(&cells, cols, c0));
-        }
-    }
-    let r = get_range::<usize>(cells.clone(), cols, &reps[..]);
-    match bb {
-        None => {
-            kani::cover!(true);
-            // C04.empty_iff: no non-default cell -> the empty range
-            assert!(r.inner.is_empty() && r.start == (0, 0) && r.end == (0, 0));
-        }
-        Some((r0, r1, c0, c1)) => {
-            kani::cover!(r0 > 0);
-            kani::cover!(c0 > 0 || MAXW_USED_1::<N>(lens));
-            match fact {
-                Fact::Bounds => {
-                    // C04.bbox_tight
-                    assert!(r.start == (r0 as u32, c0 as u32));
-                    assert!(r.end == (r1 as u32, c1 as u32));
+    let pay: [u8; MAXC] = kani::any();
+    let mut total = 0;
+    let mut i = 0;
+    while i < N { total += lens[i]; i += 1; }
+    let mut mask: u32 = 0;
+    while mask < (1u32 << total) {
+        let (cells, cols4) = mk_cells(lens, mask, &pay);
+        let cols = &cols4[..N + 1];
+        let (g, h) = expand(&cells, cols, reps);
+        let bb = bbox(&g, h);
+        let skip = match bb {
+            Some((_, _, c0, _)) => exclude_known && in_known_defect_region::<N>(&cells, cols, c0),
+            None => false,
+        };
+        if !skip {
+            let r = get_range::<K>(cells.clone(), cols, &reps[..]);
+            match bb {
+                None => {
+                    // C04.empty_iff: no non-default cell -> the empty range
+                    assert!(r.inner.is_empty() && r.start == (0, 0) && r.end == (0, 0));
                 }
-                Fact::Len => {
-                    // C04.len_is_h_times_w
-                    assert!(r.inner.len() == (r1 - r0 + 1) * (c1 - c0 + 1));
-                }
-                Fact::Placement => {
-                    // C04.placement (observed through the public accessor)
-                    let mut rr = r0;
-                    while rr <= r1 {
-                        let mut cc = c0;
-                        while cc <= c1 {
-                            assert!(r.get_value((rr as u32, cc as u32)) == Some(&g[rr][cc]));
-                            cc += 1;
-                        }
-                        rr += 1;
+                Some((r0, r1, c0, c1)) => match fact {
+                    Fact::Bounds => {
+                        // C04.bbox_tight (and not the empty range)
+                        assert!(r.start == (r0 as u32, c0 as u32));
+                        assert!(r.end == (r1 as u32, c1 as u32));
+                        assert!(!r.inner.is_empty());
                     }
-                }
+                    Fact::Len => {
+                        // C04.len_is_h_times_w
+                        assert!(r.inner.len() == (r1 - r0 + 1) * (c1 - c0 + 1));
+                    }
+                    Fact::Placement => {
+                        // C04.placement (observed through the public accessor)
+                        let mut rr = r0;
+                        while rr <= r1 {
+                            let mut cc = c0;
+                            while cc <= c1 {
+                                assert!(r.get_value((rr as u32, cc as u32)) == Some(&g[rr][cc]));
+                                cc += 1;
+                            }
+                            rr += 1;
+                        }
+                    }
+                },
             }
         }
+        mask += 1;
     }
-}
-
-#[allow(non_snake_case)]
-fn MAXW_USED_1<const N: usize>(lens: [usize; N]) -> bool {
-    // shapes whose rows all have length <= 1 cannot have c0 > 0
-    let mut i = 0;
-    let mut m = 0;
-    while i < N { if lens[i] > m { m = lens[i]; } i += 1; }
-    m <= 1
+    kani::cover!(mask == (1u32 << total));
 }
 
 macro_rules! h {
     ($name:ident, $lens:expr, $reps:expr, $fact:expr, $excl:expr) => {
         #[kani::proof]
-        #[kani::unwind(8)]
         fn $name() { check($lens, $reps, $fact, $excl) }
     };
 }
